@@ -120,7 +120,15 @@ class Flow(object):
                     return MergedDict(snames)
                 else:
                     outer_names = set(snames).difference(self.scope.locals)
-                    return {n: snames[n] for n in outer_names}
+                    names = {n: snames[n] for n in outer_names}
+                    for n in self.scope.globals:
+                        # declared global: bindings of enclosing functions are skipped
+                        gname = self.scope.top.names.get(n)
+                        if gname is None:
+                            names.pop(n, None)
+                        else:
+                            names[n] = gname
+                    return names
             else:
                 return {}
 
